@@ -152,6 +152,47 @@ def _some_edge_feasible(f, G, b, assumed):
     return False
 
 
+def opaque_condition(f, b):
+    """Is the test that leads to panic block b stated over something the guard reasoning cannot read — a call it has no
+    model of, or a modelled one (`Range::contains`) whose operands it cannot resolve (a promoted constant such as `&(0..N)`)?
+    Such an assertion is neither proved nor refuted: it is listed as undecided, never reported."""
+    G = guards.Guards(f)
+
+    def incoming(x):
+        out = []
+        for p in f.preds(False).get(x, []):
+            for (s, kind, label) in f.succ_edges(p):
+                if s == x and kind == "normal":
+                    out.append((p, label))
+        return out
+
+    edges = incoming(b)
+    for _ in range(8):
+        if len(edges) != 1 or f.term(edges[0][0])["k"] in ("switch", "assert"):
+            break
+        b = edges[0][0]
+        edges = incoming(b)
+    for (p, label) in edges:
+        atoms = list(G.edge_atoms(p, label)) + (list(G.assert_atoms(p)) if f.term(p)["k"] == "assert" else [])
+        for a in atoms:
+            if a[0] != "bool" or not isinstance(a[1], tuple):
+                continue
+            c = a[1]
+            if c[:1] != ("call",) and c[:1] != ("pcall",):
+                continue  # a plain boolean value: nothing to model
+            name = c[1]
+            if name == "Range::is_empty":
+                continue
+            if name in ("Range::contains", "RangeInclusive::contains") and len(c[2]) == 2:
+                cb = c[3] if len(c) == 4 else None
+                lo, hi = guards._range_bounds(f, guards.norm(c[2][0]), cb)
+                x = guards._value_behind(f, guards.norm(c[2][1]), cb)
+                if lo is not None and x is not None:
+                    continue
+            return "`%s` over operands the guard reasoning cannot resolve" % name
+    return None
+
+
 class Reach:
     def __init__(self, prog):
         self.prog = prog
